@@ -4,8 +4,10 @@ cd "$(dirname "$0")"
 TIER=${1:-quick}; shift
 SEEDS=${@:-1}
 ids=$(python3 -c "import json;print(' '.join(c['property_id'] for c in json.load(open('MANIFEST.json'))['checks']))")
+rc=0
 for s in $SEEDS; do for id in $ids; do
   out=$(VERIF_SEED=$s ./check $id $TIER 2>&1); code=$?
   echo "seed=$s exit=$code $(echo "$out" | grep -v '^KNOWN-FINDING' | tail -1 | cut -c1-170)"
-  [ $code -ne 0 ] && echo "$out" | grep -E '^(VIOLATION|INCONCLUSIVE|STALE)' | head -5 | cut -c1-250
+  if [ $code -ne 0 ]; then rc=1; echo "$out" | grep -E '^(VIOLATION|INCONCLUSIVE|STALE)' | head -5 | cut -c1-250; fi
 done; done
+exit $rc
